@@ -11,7 +11,7 @@ Decided (structural clauses of the RFC 8439 construction, every path, all inputs
   in-place decryption); one-shot encrypt/decrypt are clone -> transition -> op -> finalize over
   the incremental API.
 Not decided: keystream and Poly1305 values (C03, C05)."""
-from . import aead
+from . import aead, C03, C04
 
 EXPLANATION = __doc__
 TECHNIQUE = "MIR call-order dominance, argument wiring by canonical expression, linear-form predicates and slice windows"
@@ -31,4 +31,11 @@ def run(ctx):
     ctx.guard("tag-source", "enc-finalize", lambda: aead.check_finalize_enc(ctx, P))
     ctx.guard("oneshot", "encrypt", lambda: aead.check_oneshot(ctx, P, "encrypt"))
     ctx.guard("oneshot", "decrypt", lambda: aead.check_oneshot(ctx, P, "decrypt"))
+    # the AEAD's own cipher instance: chunk-independence of ChaCha::process_mut and the engine constants / key rows for
+    # both key lengths are part of "any split gives the same ciphertext" and "key lengths {16,32}"
+    ctx.guard("lockstep", "chacha20::ChaCha", lambda: C04.check_process_mut(ctx, P, "chacha20::ChaCha"))
+    ctx.guard("update-order", "chacha20::ChaCha", lambda: C04.check_update(ctx, P, "chacha20::ChaCha", "increment$"))
+    ctx.guard("process-order", "chacha20::ChaCha", lambda: C04.check_process(ctx, P, "chacha20::ChaCha"))
+    C03.check_tables(ctx, P, "sse2")
+    ctx.guard("keydep", "sse2", lambda: C03.check_sse2_layout(ctx, P))
     ctx.not_decided += ["ChaCha keystream values (C03) and Poly1305 arithmetic (C05)", "cipher.offset == 64 after the block-0 request as an interval fact (tier 2; the 64-byte request length is decided)"]
